@@ -34,6 +34,11 @@ CLAIMED["C09"] = dict(
    note="Trusted: Coq kernel; extraction + OCaml driver; sync.Mutex/sync.Cond semantics and os.File ReadAt/WriteAt/Truncate are runtime (represented as atomic events); one reader goroutine and one writer goroutine (the rl/wl locks that serialise further callers are not modelled); positions are unbounded N (no 2^64 overflow). Real runs sample the interleavings (eager schedule); the theorems cover all of them.",
    technique="Coq proof (invariant over an event machine, refinement to a FIFO queue) + differential run on op sequences with parked operations",
    design="DESIGN.md section 5, C09")
+CLAIMED["C20"] = dict(
+   text="Theorems in coq/Props/C20.v (closed, no axioms) over a Gallina model of supervisor.go with the probe (connect + INFO replication) as an oracle function round -> node -> outcome, so that every topology, failure sequence and node ordering is covered: if a node is returned it reported the master role in the round that succeeded and no node reported it in any earlier round, and source + slaves are a permutation of the known nodes; failure is returned only if no node reported master in any of the maxRetries+1 rounds, and conversely a master within the budget is always found; unreachable nodes, command errors and replies without a role line are never chosen; the retry budget regenerated from the source is 6. Differential run: random topologies/failure scripts/orderings through the real GetSlotState with an injected connection factory (real back-off sleeps) vs the extracted model and an independent oracle.",
+   note="Trusted: Coq kernel; goextract (maxRetries constant); extraction + OCaml driver; the harness' fake redigo.Conn. The regular expressions ^role:master / ^role:slave are modelled as prefix tests on the lines of strings.Split(reply, \"\\n\"). Quick tier uses retry budgets 0..2 (sleeps 2+1 s), thorough up to 6 (21 s).",
+   technique="Coq proof (induction over the node list and the retry depth, probe as oracle) + differential run with injected factory",
+   design="DESIGN.md section 5, C20")
 NOT_YET = {}
 props = [json.loads(l) for l in open(os.path.join(V, "properties.jsonl"))]
 hooks = subprocess.run(["git", "-C", "/repo", "log", "--format=%H %s"], capture_output=True, text=True).stdout.strip().split("\n")
